@@ -72,6 +72,17 @@ theorem err_map_wellformed :
 theorem crash_and_hilbert_codes : crash = .Crash ∧ hilbertCode = .NotFound :=
   ⟨crash_eq, hilbertCode_eq⟩
 
+/-- No profile that can build the library (workspace `Cargo.toml`, `ffi/Cargo.toml`, cargo
+configuration files of the repository, `-C panic=…` in their rustflags) selects another panic
+strategy than cargo's default `unwind`.  This is the assumption `crash_iff_panic` rests on:
+under `panic = "abort"` every `catch_unwind` of the C API is a no-op and a panicking input
+kills the caller instead of returning `COUPE_ERR_CRASH` (the release library is also run by
+the harness, so such a profile yields the failing input `ffi-abort`). -/
+theorem panic_strategy_unwind :
+    panicSettings.all (fun (_, _, v) => v == "unwind") = true ∧
+    cargoFilesScanned.contains "Cargo.toml" = true ∧ cargoFilesScanned.contains "ffi/Cargo.toml" = true := by
+  decide
+
 /-- `coupe_strerror` has a (non-empty, distinct) message for every code, in enum order. -/
 theorem strerror_total :
     strerrorArms.map Prod.fst = rustErrVariants ∧
@@ -413,6 +424,7 @@ end Coupe.Ffi
 #print axioms Coupe.Ffi.err_map_range
 #print axioms Coupe.Ffi.err_map_wellformed
 #print axioms Coupe.Ffi.crash_and_hilbert_codes
+#print axioms Coupe.Ffi.panic_strategy_unwind
 #print axioms Coupe.Ffi.strerror_total
 #print axioms Coupe.Ffi.exports_match_header
 #print axioms Coupe.Ffi.exports_mismatch_with_d9_typo
